@@ -295,9 +295,11 @@ func newConn(conn net.Conn, isServer bool, readBufferSize, writeBufferSize int, 
 
 	if writeBufferSize <= 0 {
 		writeBufferSize = defaultWriteBufferSize
-	} else if writeBufferSize < maxControlFramePayloadSize {
-		// must be large enough for control frame
-		writeBufferSize = maxControlFramePayloadSize
+	} else if writeBufferSize <= maxControlFramePayloadSize {
+		// Must be large enough for a control frame, plus one byte so that a
+		// writer fed through ReadFrom (io.Copy) never has to flush a full
+		// buffer just to find out that a control payload has ended.
+		writeBufferSize = maxControlFramePayloadSize + 1
 	}
 	writeBufferSize += maxFrameHeaderSize
 
